@@ -31,7 +31,13 @@ BigEpochVers == {[e |-> e, u |-> u, r |-> <<>>] : e \in BigEpochs, u \in {<<49>>
 EpochTexts == {e \o <<COLON, 49, 46, 48, HYPHEN, 49>> : e \in {<<48, 49, 48>>, <<57>>, <<49, 48>>, <<48, 48, 49, 48>>, <<48, 56>>, <<56>>, <<48, 48>>, <<48, 49, 55>>, <<49, 53>>}}
               \cup {<<49, 46, 48, HYPHEN, 49>>}
 TextVecs == SetToSeq({[k |-> "cmp_text", ta |-> a, tb |-> b] : a \in EpochTexts, b \in EpochTexts})
-CmpVecs == SetToSeq({[k |-> "cmp", a |-> a, b |-> b] : a \in Vers \cup Literals, b \in Vers \cup Literals})
+\* long digit runs that share a long prefix and differ in their length or last digits: 1.1 followed by 39, 40, 41 zeros,
+\* by 39 zeros and a 5, 10^40 and 10^41 as revisions; the same behind a 35-byte common lead-in
+Zs(n) == [i \in 1..n |-> 48]
+LongNums == {<<49, 46, 49>> \o Zs(n) : n \in {39, 40, 41}} \cup {<<49, 46, 49>> \o Zs(39) \o <<53>>, <<49, 46, 49>> \o Zs(40) \o <<53>>}
+LongVers == {[e |-> <<48>>, u |-> u, r |-> <<>>] : u \in LongNums} \cup {[e |-> <<48>>, u |-> <<49>>, r |-> <<49>> \o Zs(n)] : n \in {39, 40, 41}}
+            \cup {[e |-> <<48>>, u |-> <<50, 46>> \o [i \in 1..33 |-> 97] \o <<49>> \o Zs(n), r |-> <<>>] : n \in {15, 16, 17, 31, 32, 33}}
+CmpVecs == SetToSeq({[k |-> "cmp", a |-> a, b |-> b] : a \in LongVers, b \in LongVers}) \o SetToSeq({[k |-> "cmp", a |-> a, b |-> b] : a \in Vers \cup Literals, b \in Vers \cup Literals})
            \o SetToSeq({[k |-> "cmp", a |-> a, b |-> b] : a \in HyVers, b \in HyVers})
            \o SetToSeq({[k |-> "cmp", a |-> a, b |-> b] : a \in BigEpochVers, b \in BigEpochVers})
            \o TextVecs
